@@ -411,3 +411,33 @@ def q_preempt(registered):
               "known finding (not repaired): first frames racing lose one registration in lltd_state_for_iface (no lock/atomic in the port API)"])
 def c17(tier, seed):
     return q_rel(3) + [q_preempt(True), q_preempt(False)]
+
+
+def c18_block_queries(K=2):
+    qs = []
+    fd = ["FAULTS"]
+    maxd = (576 - 34) // 14
+    for m in (0, 1):
+        qs.append(q_safety_class(0, ["answerHello"], "fault_discover_mtufail%d" % m, K=K, defines=fd + ["HOSTLEN=33", "SSIDLEN=40", "FAULT_MTU=%d" % m], unwind=max(K + 4, 8)))
+    rep_e = {"sendProbeMsg": "rec_sendProbeMsg"}
+    qs.append(q_safety_class(2, ["parseEmit"], "fault_emit_loop", K=K, defines=fd, unwind=maxd + 2, replace_extra=rep_e))
+    qs.append(q_safety_class(3, ["parseProbe"], "fault_probe", K=K, defines=fd))
+    qs.append(q_safety_class(6, ["parseQuery"], "fault_query", K=K, defines=fd))
+    qs.append(q_safety_class(8, [], "fault_reset", K=K, defines=fd))
+    qs.append(q_safety_class(11, ["parseQueryLargeTlv"], "fault_qltlv", K=K, defines=fd + ["V_MEMCPY_RECORD"], unwind=36))
+    qs.append(q_safety_class(255, [], "fault_other", K=K, defines=fd))
+    return qs
+
+
+@prop("C18", ["fault schedule symbolic: the i-th lltd_port_malloc (i<8) and the i-th send fail iff flagged; MTU, address, icon, name and every attribute getter fail under independent flags - strictly contains 'fail exactly the k-th allocation' for every k",
+              "'after the fault clears and a Reset arrives it behaves like a fresh responder' = faulty step ends in a state satisfying the record invariant (asserted here) + C09 from every such state",
+              "the interface record exists before the faulty step (first-frame registration failure is the fresh-registry query)",
+              "Emit under faults: descriptor walk with recording sendProbeMsg stub, and real sendProbeMsg alone with failing malloc/sends"])
+def c18(tier, seed):
+    qs = c18_block_queries()
+    qs.append(blkq("blk_fault_emit_send", "h_emit_send", K=2, replace={}, defines=["FAULTS_SEND"], safety_for=("C01", "C18"),
+                   desc="real sendProbeMsg with failing allocation / refused transmits: buffers released on every path"))
+    qs.append(Query("c18_ctors", "c18_ctors.c", "h_ctors", unwind=4, backends=("minisat", "cadical"), safety_for=("C01", "C18"),
+                    bounds={"constructor": "symbolic choice of init_automata_mapping / enumeration / session / session_table_create", "allocations": "each of the first 8 may fail"},
+                    desc="automata constructors under failing allocation: NULL or fully initialised, no dereference of a missing allocation, no leak"))
+    return qs
